@@ -315,6 +315,9 @@ def run(work, tier, replay=None):
             [(m["K"], m["Q"], m["distinct"]) for m in mc_runs], [(l["design"], l["refuted"]) for l in leads]))
     if replay:
         scs = [s for s in read_ndjson(replay) if "ops" in s]
+        for s in scs:
+            if "fatal" not in s:       # a scenario in the format of scenarios/l2_*.ndjson
+                s.setdefault("cls", "regression"); s.setdefault("life", "custom"); s["regression"] = True
     else:
         reps = 1 if tier == "quick" else 6
         scs = [scenario(c, l, rnd.randint(0, 10 ** 6)) for c in CLASSES for l in LIFE for _ in range(reps)]
